@@ -1047,6 +1047,80 @@ def mutation_sites(trees):
                     sites.append({"module": modname, "func": path, "line": n.lineno, "kind": kind[0], "object": kind[1],
                                   "documented": (modname, path) in DOCUMENTED_INPLACE,
                                   "src": ast.unparse(n)[:80]})
+    sites.extend(attribute_alias_sites(trees))
+    return sites
+
+
+PASS_THROUGH_CALLS = {"np.atleast_1d", "np.asarray", "np.asanyarray", "np.ravel", "np.squeeze", "np.reshape", "np.atleast_2d"}
+
+
+def may_alias_param(node, params):
+    """can the value of this expression be (a view of) one of the parameters? a bare parameter, or a numpy call that hands its
+    argument back when it already is an array"""
+    if isinstance(node, ast.Name):
+        return node.id if node.id in params else None
+    if isinstance(node, ast.Call) and ast.unparse(node.func) in PASS_THROUGH_CALLS and node.args:
+        return may_alias_param(node.args[0], params)
+    if isinstance(node, ast.IfExp):
+        return may_alias_param(node.body, params) or may_alias_param(node.orelse, params)
+    return None
+
+
+def attribute_alias_sites(trees):
+    """`self.X = <parameter or pass-through call of one>` in a method makes `self.X` an alias of that argument object for the whole class
+    (and its subclasses in the same module); every subscript store, augmented assignment or mutating call through `self.X` in any method of
+    those classes is then a write site on the caller's object"""
+    sites = []
+    for modname, tree in trees.items():
+        classes = {c.name: c for c in tree.body if isinstance(c, ast.ClassDef)}
+        attr_alias = {}      # class name -> {attr: (param, method)}
+        for cname, c in classes.items():
+            for fn in [f for f in c.body if isinstance(f, ast.FunctionDef)]:
+                params = {a.arg for a in fn.args.posonlyargs + fn.args.args + fn.args.kwonlyargs} - {"self", "cls"}
+                for n in ast.walk(fn):
+                    if isinstance(n, ast.Assign):
+                        for t in n.targets:
+                            if (isinstance(t, ast.Attribute) and isinstance(t.value, ast.Name) and t.value.id == "self"):
+                                src = may_alias_param(n.value, params)
+                                if src:
+                                    attr_alias.setdefault(cname, {})[t.attr] = (src, fn.name)
+
+        def inherited(cname, seen=()):
+            out = dict(attr_alias.get(cname, {}))
+            for bse in classes[cname].bases:
+                bn = ast.unparse(bse)
+                if bn in classes and bn not in seen:
+                    for k, v in inherited(bn, seen + (cname,)).items():
+                        out.setdefault(k, v)
+            return out
+
+        def self_attr(e):
+            while isinstance(e, ast.Subscript):
+                e = e.value
+            if isinstance(e, ast.Attribute) and isinstance(e.value, ast.Name) and e.value.id == "self":
+                return e.attr
+            return None
+        for cname, c in classes.items():
+            al = inherited(cname)
+            if not al:
+                continue
+            for fn in [f for f in c.body if isinstance(f, ast.FunctionDef)]:
+                for n in ast.walk(fn):
+                    kind = None
+                    if isinstance(n, ast.Assign):
+                        for t in n.targets:
+                            if isinstance(t, ast.Subscript) and self_attr(t) in al:
+                                kind = ("store", self_attr(t))
+                    elif isinstance(n, ast.AugAssign) and self_attr(n.target) in al:
+                        kind = ("augassign", self_attr(n.target))
+                    elif isinstance(n, ast.Call) and isinstance(n.func, ast.Attribute) and n.func.attr in MUTATING_METHODS \
+                            and self_attr(n.func.value) in al:
+                        kind = (n.func.attr, self_attr(n.func.value))
+                    if kind:
+                        path = f"{cname}.{fn.name}"
+                        sites.append({"module": modname, "func": path, "line": n.lineno, "kind": kind[0],
+                                      "object": f"self.{kind[1]} (argument `{al[kind[1]][0]}` of {al[kind[1]][1]})",
+                                      "documented": (modname, path) in DOCUMENTED_INPLACE, "src": ast.unparse(n)[:80]})
     return sites
 
 
